@@ -334,7 +334,11 @@ func runChild(tag string, scs []Scenario, workDir string, timeout time.Duration)
 		return JobResult{}, "", err
 	}
 	_ = os.Remove(filepath.Join(workDir, tag+".hang.json"))
-	cmd := exec.Command(Self(), "child", jobPath)
+	bin := Self()
+	if ChildBinary != "" {
+		bin = ChildBinary
+	}
+	cmd := exec.Command(bin, "child", jobPath)
 	var sb strings.Builder
 	cmd.Stdout = &sb
 	cmd.Stderr = &sb
